@@ -5,7 +5,8 @@
    Vocabulary: spec/FetcherSpec.v ([ghost_step]/[safe_run]: who may be asked for what, kept without
    looking at the fetcher's tables; [reachT]; [pass_pending]; [owed]).  Proofs: proofs/FetcherProofs.v. *)
 From Coq Require Import NArith ZArith List Bool.
-From LV Require Import model.Fetcher spec.FetcherSpec proofs.FetcherProofs.
+From LV Require Import model.Fetcher spec.FetcherSpec proofs.FetcherProofs proofs.FetcherLiveness.
+From LV Require Import model.Workers proofs.WorkersProofs.
 Import ListNotations.
 
 (* SAFETY, for every configuration and EVERY event sequence (any interleaving of announcements,
@@ -89,32 +90,52 @@ Theorem C16_liveness_response_partial : forall c lat t0 t st id tr,
                  (now_p - ft <= c_arrive c - c_slack c)%Z.
 Proof. exact fetcher_response_request. Qed.
 
-(* The end-to-end statement in terms of the environment only (what (7) still takes as hypotheses about the
-   table - the item stays held and young - derived from "not received, stays interesting, cache not
-   overflowing"), which these compose to, NOT proved as one theorem: under timer fairness
-   with latency [lat], an item announced at t (reported interesting from then on, not received,
-   announcement younger than ForgetTimeout, cache not overflowing) is requested during
-   [t, t + 2*ArriveTimeout + 2*lat]. *)
-Definition timer_fair (c : cfg) (lat t0 : Z) (tr : list (Z * event)) : Prop :=
-  forall pre now ev post, tr = pre ++ (now, ev) :: post ->
-    let st := fst (run true c (init t0) pre) in
-    (forall due, timer_due st = Some due -> (now <= due + lat)%Z) /\
-    (timer_chan st = true -> exists i ch sc, ev = ETimer i ch sc).
-Definition nondecreasing (tr : list (Z * event)) : Prop :=
-  forall pre a b post, tr = pre ++ a :: b :: post -> (fst a <= fst b)%Z.
-Definition C16_full : Prop :=
-  forall c lat t0 pre t peer ids atime interested susp scan post id,
-    cfg_wf c -> (0 <= lat)%Z ->
-    let tr := pre ++ (t, ENotify peer ids atime interested susp scan) :: post in
-    nondecreasing tr -> timer_fair c lat t0 tr ->
-    In id interested ->
-    (N.of_nat (2 * length tr) <= c_hash_limit c)%N ->                       (* no eviction *)
-    (t + 2 * c_arrive c + 2 * lat - atime < c_forget c)%Z ->                (* young enough *)
-    (forall now i ch sc, In (now, ETimer i ch sc) post -> In id i) ->       (* stays interesting *)
-    (forall now l, In (now, EReceived l) post -> ~ In id l) ->              (* not received *)
-    (exists now ev, In (now, ev) post /\ (t + 2 * c_arrive c + 2 * lat < now)%Z) ->  (* the trace goes on *)
-    exists t' p l, In (t', (p, l)) (snd (run true c (init t0) tr)) /\ In id l /\
-                   (t <= t' <= t + 2 * c_arrive c + 2 * lat)%Z.
+(* LIVENESS, end to end, from environment hypotheses only.  A trace from the start of the loop in which
+   item [id] is announced (and reported interesting) at time t:
+     - the clock is nondecreasing                                   [clock_ok]
+     - timer fairness with latency lat                              [fair_run]
+     - the announces cache is large enough for everything the trace announces, so nothing is evicted
+                                                                    [2 * announced_count <= HashLimit]
+     - every announcement of the item in the trace is younger than ForgetTimeout until the bound
+       (the loop forgets an item by its OLDEST recorded announcement, so all of them count)
+     - afterwards the item is reported interesting at every pass and is never reported received
+     - the trace goes on beyond the bound
+   Then a request for the item is emitted at some time t' with
+        t <= t' <= t + 2*ArriveTimeout - GatherSlack + 2*lat.
+   Suspension does not occur among the hypotheses: the [suspended] answer of the announcement is
+   arbitrary and timer passes do not consult Suspend() at all (an [ETimer] event carries no such
+   oracle), so the bound holds from the announcement whether or not the fetcher is suspended, hence
+   a fortiori from max(t_announce, t_unsuspend) (C16_liveness_unsuspend). *)
+Theorem C16_liveness : forall c lat t0 pre t peer ids atime interested susp scan post id,
+  cfg_wf c -> (c_slack c <= c_arrive c)%Z -> (0 <= lat)%Z ->
+  let tr := pre ++ (t, ENotify peer ids atime interested susp scan) :: post in
+  let Tend := (t + 2 * c_arrive c - c_slack c + 2 * lat)%Z in
+  clock_ok t0 tr ->
+  fair_run c lat (init t0) t0 tr ->
+  In id interested ->
+  (N.of_nat (2 * announced_count tr) <= c_hash_limit c)%N ->
+  (forall now p i a int su sc, In (now, ENotify p i a int su sc) tr -> In id int -> (Tend - a <= c_forget c)%Z) ->
+  (forall now i ch sc, In (now, ETimer i ch sc) post -> In id i) ->
+  (forall now l, In (now, EReceived l) post -> ~ In id l) ->
+  (exists now ev, In (now, ev) post /\ (Tend < now)%Z) ->
+  exists t' p l, In (t', (p, l)) (snd (run true c (init t0) tr)) /\ In id l /\ (t <= t' <= Tend)%Z.
+Proof. exact fetcher_liveness. Qed.
+
+(* "... or after the fetcher stops being suspended, whichever is later": for any moment t_u (the end of
+   a suspension), the request comes no later than max(t, t_u) + the same bound. *)
+Theorem C16_liveness_unsuspend : forall c lat t0 pre t peer ids atime interested susp scan post id t_u,
+  cfg_wf c -> (c_slack c <= c_arrive c)%Z -> (0 <= lat)%Z ->
+  let tr := pre ++ (t, ENotify peer ids atime interested susp scan) :: post in
+  let Tend := (t + 2 * c_arrive c - c_slack c + 2 * lat)%Z in
+  clock_ok t0 tr -> fair_run c lat (init t0) t0 tr -> In id interested ->
+  (N.of_nat (2 * announced_count tr) <= c_hash_limit c)%N ->
+  (forall now p i a int su sc, In (now, ENotify p i a int su sc) tr -> In id int -> (Tend - a <= c_forget c)%Z) ->
+  (forall now i ch sc, In (now, ETimer i ch sc) post -> In id i) ->
+  (forall now l, In (now, EReceived l) post -> ~ In id l) ->
+  (exists now ev, In (now, ev) post /\ (Tend < now)%Z) ->
+  exists t' p l, In (t', (p, l)) (snd (run true c (init t0) tr)) /\ In id l /\
+    (t <= t' <= Z.max t t_u + 2 * c_arrive c - c_slack c + 2 * lat)%Z.
+Proof. exact fetcher_liveness_unsuspend. Qed.
 
 (* non-vacuity of (1) and (3): a reachable state with an announced, owed item and an armed timer *)
 Example C16_nonvacuous :
@@ -137,6 +158,36 @@ Example C16_response_nonvacuous :
   snd (run true cfg_ex ex_resp_state ex_resp_trace) = [(400%Z, (1%N, [7%N]))].
 Proof. exact ex_resp_hyps. Qed.
 
+(* ---------- utils/workers: the pool the request closures are handed to (model/Workers.v) ---------- *)
+(* For every sequence of Enqueue / worker-select / task-end / close(quit) / Drain events, with any
+   outcome of the random choice Go makes between two ready select cases: a closure is started at most
+   once, and only if its Enqueue returned nil. *)
+Theorem C16_workers_run_at_most_once : forall cap n tr,
+  fresh_ids (pool_init cap n) tr ->
+  let s := fst (wrun (pool_init cap n) tr) in
+  NoDup (p_ran s) /\ forall id, In id (p_ran s) -> In id (p_accepted s).
+Proof. exact workers_run_at_most_once. Qed.
+(* Once the owner's Stop has returned (quit closed, wg.Wait() saw every worker exit) no closure is ever
+   started again, whatever happens afterwards. *)
+Theorem C16_workers_nothing_after_stop : forall s ev,
+  stopped s -> stopped (fst (wstep s ev)) /\ p_ran (fst (wstep s ev)) = p_ran s /\
+  match snd (wstep s ev) with OStart _ => False | _ => True end.
+Proof. exact workers_nothing_after_stop. Qed.
+(* Enqueue after close(quit) fails when the buffer is full.  With room in the buffer the select may pick
+   either case: "Enqueue after Stop fails" is NOT guaranteed by the code (workers_enqueue_after_quit_may_succeed
+   in proofs/, and observed on the real pool: statistic w_enqueue_after_quit_accepted); such a closure is
+   never run, by the previous theorem. *)
+Theorem C16_workers_enqueue_after_quit_full : forall s id pq,
+  p_quit s = true -> (p_cap s <= length (p_queue s))%nat -> wstep s (WEnqueue id pq) = (s, OEnq id false).
+Proof. exact workers_enqueue_after_quit_full. Qed.
+
+(* non-vacuity of C16_liveness: a concrete fair trace within capacity, and the requests it leads to *)
+Example C16_liveness_nonvacuous :
+  clock_ok 0%Z ex_live_trace /\ fair_run cfg_ex 0%Z (init 0%Z) 0%Z ex_live_trace /\
+  (N.of_nat (2 * announced_count ex_live_trace) <= c_hash_limit cfg_ex)%N /\
+  snd (run true cfg_ex (init 0%Z) ex_live_trace) = [(400, (1%N, [7%N])); (720, (1%N, [7%N]))]%Z.
+Proof. exact ex_live_hyps. Qed.
+
 Print Assumptions C16_safety.
 Print Assumptions C16_liveness_pass_pending_partial.
 Print Assumptions C16_liveness_tick_partial.
@@ -145,3 +196,8 @@ Print Assumptions C16_liveness_notify_requests_partial.
 Print Assumptions C16_liveness_pass_leaves_recent_partial.
 Print Assumptions C16_liveness_fetching_was_requested_partial.
 Print Assumptions C16_liveness_response_partial.
+Print Assumptions C16_liveness.
+Print Assumptions C16_liveness_unsuspend.
+Print Assumptions C16_workers_run_at_most_once.
+Print Assumptions C16_workers_nothing_after_stop.
+Print Assumptions C16_workers_enqueue_after_quit_full.
